@@ -9,7 +9,7 @@ Assumption (DESIGN.md C15): for endianess="big" `offset` is the position of the 
 Lexical choices: xml.* (see xmlw.py); defaults: 'omit' | 'explicit' (attributes that carry the documented default); num.scale (slope,
 intercept), num.limit (min, max); omit_full (min/max left out when they span the raw range); msglen: 'explicit' | 'omit' | 'auto'
 (the latter two only when the described length is the minimum that holds the signals); idcase upper|lower hex digits;
-emptyprod (an empty <Producer/> written for frames without sender); order.signals, order.labels, order.nodes
+emptyprod (an empty <Producer/> written for frames without sender); emptyunit (unit="" spelled out); order.signals, order.labels, order.nodes
 """
 import random
 
@@ -18,7 +18,7 @@ from xmlw import E
 from netdesc import render_number, msb0, desc_bits
 
 CANON = {"defaults": "omit", "num.scale": "plain", "num.limit": "plain", "omit_full": False, "msglen": "explicit", "idcase": "upper",
-         "emptyprod": False, "order.signals": "asis", "order.labels": "asis", "order.nodes": "asis"}
+         "emptyprod": False, "emptyunit": False, "order.signals": "asis", "order.labels": "asis", "order.nodes": "asis"}
 ENCODINGS = ["utf-8", "iso-8859-1"]
 NS = "http://kayak.2codeornot2code.org/1.0"
 
@@ -29,12 +29,13 @@ def random_lex(rng):
         if rng.random() < p:
             lex[k] = rng.choice(choices)
     maybe("defaults", ["explicit"], 0.4)
-    maybe("num.scale", ["expE", "expe", "plus", "tz"], 0.5)
-    maybe("num.limit", ["expE", "expe", "plus", "tz"], 0.5)
+    maybe("num.scale", ["expE", "expe", "plus", "tz", "nz"], 0.5)
+    maybe("num.limit", ["expE", "expe", "plus", "tz", "nz"], 0.5)
     maybe("omit_full", [True])
     maybe("msglen", ["omit", "auto"], 0.5)
     maybe("idcase", ["lower"])
     maybe("emptyprod", [True])
+    maybe("emptyunit", [True], 0.25)
     for k in ("order.signals", "order.labels", "order.nodes"):
         maybe(k, ["rev", "shuf"], 0.3)
     x = xmlw.xml_random_lex(rng, {})
@@ -79,8 +80,8 @@ def render(desc, lex=None, encoding="utf-8"):
         elif explicit:
             a.append(("endianess", "little"))
         el = E(tag, a)
-        if sg.get("comment"):
-            el.add(E("Notes", text=sg["comment"]))
+        if sg.get("comment") is not None:
+            el.add(E("Notes", text=sg["comment"]))      # "" gives <Notes></Notes>, as the shipped sample has it
         if sg["receivers"]:
             el.add(E("Consumer", children=[E("NodeRef", [("id", node_id[r])]) for r in sg["receivers"]]))
         if tag == "Signal":
@@ -95,8 +96,8 @@ def render(desc, lex=None, encoding="utf-8"):
                 v.append(("slope", render_number(sg["factor"], lx["num.scale"])))
             if sg["offset"] != 0 or explicit:
                 v.append(("intercept", render_number(sg["offset"], lx["num.scale"])))
-            if sg["unit"]:
-                v.append(("unit", sg["unit"]))
+            if sg["unit"] or lx["emptyunit"]:
+                v.append(("unit", sg["unit"]))        # unit="" spelled out
             full = False
             if sg["type"] != "float":
                 w = sg["width"]
@@ -125,7 +126,7 @@ def render(desc, lex=None, encoding="utf-8"):
         elif explicit:
             a.append(("format", "standard"))
         m = E("Message", a)
-        if fr.get("comment"):
+        if fr.get("comment") is not None:
             m.add(E("Notes", text=fr["comment"]))
         if fr["senders"]:
             m.add(E("Producer", children=[E("NodeRef", [("id", node_id[s])]) for s in fr["senders"]]))
